@@ -85,6 +85,8 @@ def run(ctx: Ctx) -> None:
     # ---- corpus first: minimised past failures
     corpus = [("> a|b\n> -|-\n>", gens.FIXED_CFGS[1]), ("> a|b\n> -|-\n>", gens.FIXED_CFGS[3]), ("². x", gens.FIXED_CFGS[0]),
               ("a\n¹. x", gens.FIXED_CFGS[0]), ("[" * 30 + "a" + "](b)" * 30, gens.FIXED_CFGS[6])]
+    # a nested quote whose last lines are empty returns beyond its enclosing quote's endLine (K3 was once too strict here)
+    corpus += [("> > \n> \n\nfoo\n", gens.FIXED_CFGS[0]), ("> > \n>\n\n\nfoo\n", gens.FIXED_CFGS[1]), ("- > \n\n\n  foo\n", gens.FIXED_CFGS[0])]
     for src, cfg in corpus:
         run_one(ctx, gens.make_md(cfg), cfg, src)
         ctx.count(("corpus", src), nontrivial=True)
@@ -96,6 +98,12 @@ def run(ctx: Ctx) -> None:
         m = gens.make_md(c)
         monitor.instrument(m, mon)
         mon_mds.append((m, c))
+    for src, _cfg in corpus:
+        for m, _c in mon_mds[:2]:
+            try:
+                m.render(src)
+            except Exception:
+                pass
     for i, src in enumerate(gens.doc_stream(rng, n, 8)):
         k = i % 4
         if k == 0:
